@@ -257,7 +257,7 @@ func vfGenC04(r *vfRand, id int) *vfWorldCase {
 		spec.Pad = 12000
 		spec.PadRandom = true
 	case 3:
-		spec.Pad = 30000
+		spec.Pad = []int{30000, 32768, 33000, 48000, 70000}[r.intn(5)] // tens of kilobytes (compressible)
 	case 4:
 		spec.Extra = map[string]interface{}{"realm_access": map[string]interface{}{"roles": []interface{}{"a", "b"}}, "acr": "1", "amr": []interface{}{"pwd"}}
 	}
@@ -400,6 +400,9 @@ var vfSizes = []int{0, 10, 600, 1400, 1500, 2900, 3000, 4400, 4500, 6000, 9000, 
 
 func vfGenC07(r *vfRand, id int) *vfWorldCase {
 	cfg := vfWorldCfg{PKCE: r.chance(1, 2), EndSession: r.chance(1, 2), GraceSec: 7200} // every request refreshes: a new write per request
+	if r.chance(1, 4) {
+		cfg.GraceSec = 60 // ... or none does: what the next request reads back is what gets forwarded downstream
+	}
 	cs := &vfWorldCase{ID: id, Kind: "overwrite-chain", Script: vfScript{Cfg: cfg, Browsers: 1}}
 	sc := func() *vfTokenScript {
 		s := vfOkScript(vfSizedTok(r, vfSizes[r.intn(len(vfSizes))], r.chance(2, 3)))
@@ -445,9 +448,14 @@ func vfCorpusC07() []*vfWorldCase {
 		vfReqAct(0, 0, "GET", "/app", 1, func(q *vfReq) { q.Script = huge(48000) }),
 		vfReqAct(0, 0, "GET", "/app", 1, func(q *vfReq) { q.Script = tiny }),
 		vfGated(0, 0, "/app", 1))
+	// the same sizes with no refresh due: what is read back is what gets forwarded
+	acts3 := append(vfLogin(0, 0, "/app", huge(33000)), vfGated(0, 0, "/app", 1), vfGated(0, 0, "/app/2", 1), vfLogoutAct(0, 0))
+	acts3 = append(acts3, vfLogin(0, 0, "/app", huge(70000))...)
+	acts3 = append(acts3, vfGated(0, 0, "/app", 1))
 	return []*vfWorldCase{
 		{Kind: "corpus", Script: vfScript{Cfg: vfWorldCfg{EndSession: true, GraceSec: 7200}, Browsers: 1, Actions: acts}},
 		{Kind: "corpus", Script: vfScript{Cfg: vfWorldCfg{EndSession: true, GraceSec: 7200}, Browsers: 1, Actions: acts2}},
+		{Kind: "corpus", Script: vfScript{Cfg: vfWorldCfg{EndSession: true, GraceSec: 60}, Browsers: 1, Actions: acts3}},
 	}
 }
 
